@@ -123,33 +123,45 @@ def make_rays(mjm, mjd, gids, r, n):
   return P, V, cls
 
 
-def oracle(mjm, mjd, gids, elig, pnt, vec):
-  """RayPick.PickDist over the TLC-given eligible set with per-geom MuJoCo distances.  Returns (dist, set of acceptable geoms, normal or None,
-  stable).  stable = False when a small perturbation of the ray changes hit/miss or the distance of an eligible geom that matters."""
+def geom_table(mjm, mjd, gids, pnt, vec):
+  """per-geom MuJoCo distances and normals for the ray and for 24 nearby rays (origin and/or direction moved by 4e-5): independent of the query"""
   L = np.linalg.norm(vec)
   u, w = perp(vec)
-  variants = [(pnt, vec)] + [(pnt + 4e-5 * a, vec) for a in (u, -u, w, -w)] + [(pnt, vec + 4e-5 * L * a) for a in (u, -u, w, -w)]
+  dirs = (u, -u, w, -w)
+  variants = [(pnt, vec)] + [(pnt + 4e-5 * a, vec) for a in dirs] + [(pnt, vec + 4e-5 * L * a) for a in dirs]
+  variants += [(pnt + 4e-5 * a, vec + 4e-5 * L * b) for a in dirs for b in dirs]
   D = np.full((len(variants), len(gids)), -1.0)
   N = np.zeros((len(variants), len(gids), 3))
   for k, (p, v) in enumerate(variants):
     for j, g in enumerate(gids):
-      if elig[j]:
-        D[k, j], N[k, j] = geom_dist(mjm, mjd, g, p, v)
-  d0 = D[0]
+      D[k, j], N[k, j] = geom_dist(mjm, mjd, g, p, v)
+  return D, N
+
+
+def oracle(table, gids, elig):
+  """RayPick.PickDist over the TLC-given eligible set.  Returns (dist, set of acceptable geoms, normal or None, stable, tol).
+  stable = False when a nearby ray (see geom_table) changes hit/miss of an eligible geom that matters; the distance tolerance grows with the
+  sensitivity of the distance to such a move (grazing incidence)."""
+  D, N = table
+  d0 = np.where(np.array(elig), D[0], -1.0)
   hit = d0 >= 0
   best = float(d0[hit].min()) if hit.any() else -1.0
-  tol = 2e-4 * max(1.0, best) / 1.0
+  tol = 2e-4 * max(1.0, best)
   stable = True
   for j in range(len(gids)):
     if not elig[j]:
       continue
     col = D[:, j]
     flips = (col >= 0).any() and (col < 0).any()
-    spread = (col.max() - col.min()) if (col >= 0).all() else 0.0
     near = col[col >= 0].min() if (col >= 0).any() else np.inf
     matters = best < 0 or near <= best + 10 * tol
-    if matters and (flips or spread > 20 * tol):
+    if matters and flips:
       stable = False
+    if matters and not flips and (col >= 0).all():
+      spread = float(np.abs(col - col[0]).max())
+      if spread > 1e-2 * max(1.0, best):
+        stable = False
+      tol = max(tol, 0.25 * spread)
   accept = {gids[j] for j in range(len(gids)) if elig[j] and d0[j] >= 0 and d0[j] <= best + 4 * tol} if best >= 0 else {-1}
   normal = None
   if best >= 0 and len(accept) == 1:
@@ -226,6 +238,7 @@ def _chunk(args):
     vec = wp.array(V.astype(np.float32), dtype=wp.vec3)
     stats = {"rays": 0, "unstable": 0, "hits": 0, "degenerate": 0}
     bads, machinery = {}, False
+    tables = {}
     for qi in range(NQ):
       q = c["queries"][qi]
       elig = [bool(x) for x in c["eligible"][qi]]
@@ -250,7 +263,9 @@ def _chunk(args):
         wi = 0 if shared else w
         for k in range(nr):
           p, v = P[wi, k], V[wi, k]
-          best, accept, normal, stable, tol = oracle(mjm, dd, gids, elig, p, v)
+          if (w, k) not in tables:
+            tables[(w, k)] = geom_table(mjm, dd, gids, p, v)
+          best, accept, normal, stable, tol = oracle(tables[(w, k)], gids, elig)
           # the spec's eligibility must be MuJoCo's
           gout = np.zeros(1, dtype=np.int32)
           ref = mujoco.mj_ray(mjm, dd, p, v, np.array(mask, dtype=np.uint8) if mask else None, bool(q["flg_static"]), int(q["bodyexclude"]), gout)
@@ -282,17 +297,18 @@ def _chunk(args):
             if key:
               # a genuine error persists when the ray is moved by a few float32 ulps; an isolated flip is the rounding of a ray lying exactly in a face plane
               u_, w_ = perp(v)
-              PP = np.stack([p + 1e-6 * a for a in (u_, -u_, w_, -w_)]).astype(np.float32)[None].repeat(nworld, axis=0)
-              VV = np.tile(v.astype(np.float32), (nworld, 4, 1))
-              cd, cg, cn = (wp.zeros((nworld, 4), dtype=float), wp.zeros((nworld, 4), dtype=int), wp.zeros((nworld, 4), dtype=wp.vec3))
-              mjw.rays(m, d, wp.array(PP, dtype=wp.vec3), wp.array(VV, dtype=wp.vec3), gg, bool(q["flg_static"]), wp.array(np.full(4, int(q["bodyexclude"]), dtype=np.int32), dtype=int),
+              sh = [u_, -u_, w_, -w_, 0.7 * (u_ + w_), 0.7 * (u_ - w_), 0.7 * (w_ - u_), -0.7 * (u_ + w_)]  # a degenerate plane contains at most two of these
+              PP = np.stack([p + 1e-6 * a for a in sh]).astype(np.float32)[None].repeat(nworld, axis=0)
+              VV = np.tile(v.astype(np.float32), (nworld, 8, 1))
+              cd, cg, cn = (wp.zeros((nworld, 8), dtype=float), wp.zeros((nworld, 8), dtype=int), wp.zeros((nworld, 8), dtype=wp.vec3))
+              mjw.rays(m, d, wp.array(PP, dtype=wp.vec3), wp.array(VV, dtype=wp.vec3), gg, bool(q["flg_static"]), wp.array(np.full(8, int(q["bodyexclude"]), dtype=np.int32), dtype=int),
                        cd, cg, cn, rc if path == "bvh" else None)
               wrong = 0
-              for j in range(4):
+              for j in range(8):
                 xd, xg = float(cd.numpy()[w, j]), int(cg.numpy()[w, j])
                 okj = (xd == -1.0 and xg == -1) if best < 0 else (xd >= 0 and abs(xd - best) <= 2 * tol and xg in accept)
                 wrong += not okj
-              if wrong < 2:
+              if wrong < 4:
                 stats["degenerate"] += 1
                 key = None
             if key:
@@ -300,10 +316,13 @@ def _chunk(args):
               kk = {"what": key, "path": path, "geomtype": exp_t[0] if exp_t else int(tname)}
               if exp_t and exp_t[0] == 1:
                 # which part of the height field the expected hit lies on: MuJoCo's hfield is the terrain surface plus a base box and side walls
-                g0 = sorted(accept)[0]
-                loc = dd.geom_xmat[g0].reshape(3, 3).T @ (p + best * v - dd.geom_xpos[g0])
-                hs = mjm.hfield_size[mjm.geom_dataid[g0]]
-                kk["part"] = "base_or_side" if (loc[2] <= 1e-4 or abs(loc[0]) >= hs[0] - 1e-4 or abs(loc[1]) >= hs[1] - 1e-4) else "top"
+                part = "top"
+                for g0 in [g for g in sorted(accept) if int(mjm.geom_type[g]) == 1]:
+                  loc = dd.geom_xmat[g0].reshape(3, 3).T @ (p + best * v - dd.geom_xpos[g0])
+                  hs = mjm.hfield_size[mjm.geom_dataid[g0]]
+                  if loc[2] <= 1e-4 or abs(loc[0]) >= hs[0] - 1e-4 or abs(loc[1]) >= hs[1] - 1e-4:
+                    part = "base_or_side"
+                kk["part"] = part
               bads.setdefault(core.jhash(kk), (kk, f"world {w} query {qi} {q} ray[{kind}] pnt {p.tolist()} vec {v.tolist()}: {msg}"))
         if machinery:
           break
@@ -330,8 +349,8 @@ def run(ctx: core.Ctx):
   rb = ctx.tlc("RayPick", "MC_RayPick_badbound.cfg", timeout=600, allow_violation=True)
   if rb.ok:
     raise RuntimeError("RayPick.tla: the BVH loop is insensitive to inadmissible bounds - the model does not constrain the real boxes")
-  n = 56 if ctx.quick else 1400
-  nray = 24 if ctx.quick else 48
+  n = 56 if ctx.quick else 6000
+  nray = 24 if ctx.quick else 64
   r = ctx.tlc("Gen_RayPick", "Gen_RayPick.cfg", gen=gen(n), workers=1, simulate="num=1", depth=n + 1, seed=ctx.seed % (1 << 30), timeout=900)
   cfgs, seen = [], set()
   for c in r.emit("cfg"):
